@@ -82,6 +82,11 @@ Definition c12_judge (is_client : bool) (rc : reply_class) (bin : bool) (err : b
   let binary_ok := bin && bytes_eqb received probe_expected in
   (* clause 1: the probe is exactly one length-prefixed ping *)
   (if bytes_eqb (firstn 6 received) probe_expected then [] else [1]) ++
+  (* clause 8: an error text is handed to onconnect only if this reply holds one *)
+  (match rc with
+   | RcErrorMsg _ | RcOtherFrame => []
+   | _ => if is_client && negb (bytes_eqb err []) then [8] else []
+   end) ++
   match rc with
   | RcAck => if binary_ok then [] else [2]                         (* binary, nothing further *)
   | RcSilence => if ascii_ok then [] else [3]                      (* ASCII, exactly one LF *)
